@@ -96,3 +96,33 @@ Definition helper_calls_ok : bool := forallb call_ok helper_calls.
 (* the one warning class raised by a constructor is caught where Shape.validate builds the components *)
 Definition warning_is_caught : bool :=
   negb (existsb (fun s => String.eqb (s_what s) "ConstraintLoadWarning" && negb (String.eqb (s_fn s) "QualifiedValueShapeConstraintComponent.__init__")) raise_sites).
+
+(* ---- assert statements: an AssertionError is an undocumented channel as well.  Every assert on the validate() path is one of the
+   listed ones - each guards an invariant that the constructor of the component (or the caller inside pySHACL) has established, or a
+   Python type of an API argument - and a function holds no more of them than listed. *)
+Definition listed_asserts : list (string * string * N) :=
+  [ (* the shapes / data graph arguments are rdflib graphs (checked or built by validate() before) *)
+    ("pyshacl/validator.py", "Validator.__init__", 1%N); ("pyshacl/validator.py", "Validator.run", 1%N);
+    ("pyshacl/rule_expand_runner.py", "RuleExpandRunner.__init__", 1%N); ("pyshacl/rule_expand_runner.py", "RuleExpandRunner.run", 1%N);
+    ("pyshacl/shapes_graph.py", "ShapesGraph.__init__", 1%N);
+    (* the cache attribute set by the decorator two lines above *)
+    ("pyshacl/entrypoints.py", "with_metashacl_shacl_graph_cache.wrapped", 1%N); ("pyshacl/rdfutil/stringify.py", "with_dict_cache.wrapped", 1%N);
+    ("pyshacl/rdfutil/stringify.py", "stringify_blank_node", 2%N);
+    (* a header line that was just read and tested non-empty *)
+    ("pyshacl/rdfutil/load.py", "load_from_source", 1%N);
+    (* bounds / lengths / patterns are literals: the constructors reject everything else with ConstraintLoadError *)
+    ("pyshacl/constraints/core/value_range_constraints.py", "MinExclusiveConstraintComponent._evaluate_min_rule", 1%N);
+    ("pyshacl/constraints/core/value_range_constraints.py", "MinInclusiveConstraintComponent._evaluate_min_rule", 1%N);
+    ("pyshacl/constraints/core/value_range_constraints.py", "MaxExclusiveConstraintComponent._evaluate_max_rule", 1%N);
+    ("pyshacl/constraints/core/value_range_constraints.py", "MaxInclusiveConstraintComponent._evaluate_max_rule", 1%N);
+    ("pyshacl/constraints/core/string_based_constraints.py", "MinLengthConstraintComponent._evaluate_string_rule", 1%N);
+    ("pyshacl/constraints/core/string_based_constraints.py", "MaxLengthConstraintComponent._evaluate_string_rule", 1%N);
+    ("pyshacl/constraints/core/string_based_constraints.py", "PatternConstraintComponent.make_generic_messages", 1%N);
+    (* rows of a SELECT result *)
+    ("pyshacl/constraints/core/other_constraints.py", "ClosedConstraintComponent.evaluate", 1%N);
+    (* two methods of the abstract target type that nothing calls *)
+    ("pyshacl/target.py", "SHACLTargetType.check_params", 1%N); ("pyshacl/target.py", "SHACLTargetType.bind", 1%N) ].
+
+Definition assert_ok (a:string * string * N) : bool :=
+  existsb (fun l => String.eqb (fst (fst a)) (fst (fst l)) && String.eqb (snd (fst a)) (snd (fst l)) && N.leb (snd a) (snd l)) listed_asserts.
+Definition asserts_ok : bool := forallb assert_ok assert_sites.
